@@ -4,6 +4,7 @@ Model/Literals.lean. Property statements are in Props/C14.lean.
 -/
 import Garnish.Spec.Spell
 import Garnish.Model.Literals
+import Garnish.Model.Lexer
 set_option linter.unusedSimpArgs false
 namespace Garnish.Lemmas.Literals
 open Garnish Garnish.Spec.Spell Garnish.Model.Literals
@@ -323,7 +324,7 @@ theorem readDigits_spell (r n : Nat) (seps : List Nat) (i : Nat) (hr2 : 2 ≤ r)
   by_cases h : n ≤ 2147483647
   · simp [h]
   · by_cases h10 : r = 10
-    · subst h10; simp [h, dataErr]; rfl
+    · subst h10; simp [h, dataErr] <;> rfl
     · simp [h, h10, dataErr]
 
 /-- the plain (unprefixed) form: all of the text is digits in the default radix -/
@@ -372,4 +373,948 @@ theorem radixSplit_spelled (R : Nat) (after : List Char) (d : Nat) :
         · intro e; simp at e
 
 end
+/-! ### `parse_char_list`: the loop is the escape-processing specification -/
+
+theorem appendOk_consOk {α : Type} (a : List α) (c : α) (X : Outcome (List α)) :
+    appendOk a (consOk c X) = appendOk (a ++ [c]) X := by
+  cases X <;> simp [appendOk, consOk]
+
+theorem appendOk_nil {α : Type} (X : Outcome (List α)) : appendOk [] X = X := by
+  cases X <;> simp [appendOk]
+
+theorem appendOk_appendOk {α : Type} (a b : List α) (X : Outcome (List α)) :
+    appendOk a (appendOk b X) = appendOk (a ++ b) X := by
+  cases X <;> simp [appendOk]
+
+section
+variable {F : Type} (pf : List Char → Option F)
+
+/-- the decoder of `\u{…}` in the code: `parse_number_internal(text, 16)` then `char::from_u32(v as u32)` -/
+def uniModel (hex : List Char) : Outcome Char :=
+  Outcome.bind (parseNumberInternal pf hex 16) fun n =>
+    match n with
+    | .float _ => dataErr
+    | .int v =>
+      match charFromI32 v with
+      | none => dataErr
+      | some ch => .ok ch
+
+/-- `parse_char_list`'s loop followed by its `Ok(new)` -/
+def loopResult (q : Nat) (st : CharListState) (body : List Char) : Outcome (List Char) :=
+  Outcome.bind (charListLoop pf q st body) fun st => .ok st.new.reverse
+
+theorem loopResult_nil (q : Nat) (st : CharListState) : loopResult pf q st [] = .ok st.new.reverse := rfl
+
+theorem loopResult_cons (q : Nat) (st : CharListState) (c : Char) (rest : List Char) :
+    loopResult pf q st (c :: rest) = Outcome.bind (charListStep pf q st c) fun st => loopResult pf q st rest := by
+  unfold loopResult
+  simp only [charListLoop]
+  cases charListStep pf q st c <;> rfl
+
+theorem charListLoop_unesc (q : Nat) : ∀ (body : List Char) (new hex : List Char),
+    loopResult pf q ⟨new, false, false, []⟩ body
+        = appendOk new.reverse (unesc (uniModel pf) (decide (q ≤ 1)) .normal body) ∧
+    loopResult pf q ⟨new, true, false, []⟩ body
+        = appendOk new.reverse (unesc (uniModel pf) (decide (q ≤ 1)) .esc body) ∧
+    loopResult pf q ⟨new, false, true, hex⟩ body
+        = appendOk new.reverse (unesc (uniModel pf) (decide (q ≤ 1)) (.uni hex) body) := by
+  intro body
+  induction body with
+  | nil => intro new hex; simp [loopResult_nil, unesc, appendOk]
+  | cons c rest ih =>
+    intro new hex
+    refine ⟨?_, ?_, ?_⟩
+    · -- normal
+      rw [loopResult_cons]
+      by_cases h1 : c = '\\'
+      · simp [charListStep, h1, Outcome.bind, unesc]; exact (ih new []).2.1
+      · by_cases h2 : (c = '\n' ∨ c = '\t') ∧ q ≤ 1
+        · simp [charListStep, h1, h2, Outcome.bind, unesc]
+          simpa [h2.2] using (ih new []).1
+        · have h2' : ¬ ((c = '\n' ∨ c = '\t') ∧ decide (q ≤ 1) = true) := by simpa using h2
+          simp only [unesc, h1, h2', if_false, appendOk_consOk]
+          have := (ih (c :: new) []).1
+          simp only [List.reverse_cons] at this
+          rw [← this]
+          simp [charListStep, h1, Outcome.bind, h2]
+    · -- after a backslash
+      rw [loopResult_cons]
+      have key : ∀ ch : Char,
+          loopResult pf q ⟨ch :: new, false, false, []⟩ rest
+            = appendOk new.reverse (consOk ch (unesc (uniModel pf) (decide (q ≤ 1)) .normal rest)) := by
+        intro ch
+        rw [appendOk_consOk, ← List.reverse_cons]; exact (ih (ch :: new) []).1
+      by_cases hn : c = 'n'
+      · subst hn; simp [charListStep, Outcome.bind, unesc]; exact key _
+      by_cases ht : c = 't'
+      · subst ht; simp [charListStep, Outcome.bind, unesc]; exact key _
+      by_cases hr : c = 'r'
+      · subst hr; simp [charListStep, Outcome.bind, unesc]; exact key _
+      by_cases h0 : c = '0'
+      · subst h0; simp [charListStep, Outcome.bind, unesc]; exact key _
+      by_cases hb : c = '\\'
+      · subst hb; simp [charListStep, Outcome.bind, unesc]; exact key _
+      by_cases hq : c = '"'
+      · subst hq; simp [charListStep, Outcome.bind, unesc]; exact key _
+      by_cases hu : c = 'u'
+      · subst hu; simp [charListStep, Outcome.bind, unesc]; exact (ih new []).2.2
+      · simp [charListStep, Outcome.bind, unesc, hn, ht, hr, h0, hb, hq, hu, dataErr, appendOk]
+    · -- inside \u
+      rw [loopResult_cons]
+      by_cases hc : c = '}'
+      · subst hc
+        simp only [charListStep, unesc, uniModel, if_true, beq_self_eq_true]
+        cases hp : parseNumberInternal pf hex.reverse 16 with
+        | ok n =>
+          cases n with
+          | float f => simp [Outcome.bind, dataErr, appendOk]
+          | int v =>
+            cases hch : charFromI32 v with
+            | none => simp [hch, Outcome.bind, dataErr, appendOk]
+            | some ch =>
+              simp only [hch, Outcome.bind]
+              rw [appendOk_consOk, ← List.reverse_cons]; exact (ih (ch :: new) []).1
+        | err e => simp [Outcome.bind, appendOk]
+        | panic s => simp [Outcome.bind, appendOk]
+        | fuelOut => simp [Outcome.bind, appendOk]
+      · by_cases ho : c = '{'
+        · subst ho; simp [charListStep, Outcome.bind, unesc]; exact (ih new hex).2.2
+        · simp [charListStep, Outcome.bind, unesc, hc, ho]; exact (ih new (c :: hex)).2.2
+end
+/-! ### `parse_char_list` on a quoted body -/
+
+theorem byteLen_foldl_ge (cs : List Char) (a : Nat) : a ≤ cs.foldl (fun n c => n + c.utf8Size) a := by
+  induction cs generalizing a with
+  | nil => simp
+  | cons c cs ih => simp only [List.foldl]; exact Nat.le_trans (Nat.le_add_right _ _) (ih _)
+
+theorem byteLen_cons_pos (c : Char) (cs : List Char) : 0 < byteLen (c :: cs) := by
+  unfold byteLen
+  simp only [List.foldl]
+  have := byteLen_foldl_ge cs (0 + c.utf8Size)
+  have := Char.utf8Size_pos c
+  omega
+
+theorem takeWhile_replicate_append (q : Nat) (x : Char) (c : Char) (rest : List Char) (h : c ≠ x) :
+    (List.replicate q x ++ c :: rest).takeWhile (· == x) = List.replicate q x := by
+  induction q with
+  | zero => simp [List.takeWhile, h]
+  | succ q ih => simp [List.replicate_succ, List.takeWhile, ih]
+
+theorem takeWhile_replicate (q : Nat) (x : Char) :
+    (List.replicate q x).takeWhile (· == x) = List.replicate q x := by
+  induction q with
+  | zero => rfl
+  | succ q ih => simp [List.replicate_succ, List.takeWhile, ih]
+
+section
+variable {F : Type} (pf : List Char → Option F)
+
+theorem parseCharList_quote (q : Nat) (body : List Char) (h : body.head? ≠ some '"') :
+    parseCharList pf (quoteCharList q body) = unescape (uniModel pf) q body := by
+  unfold quoteCharList unescape
+  cases body with
+  | nil =>
+    simp only [List.append_nil, unesc]
+    unfold parseCharList
+    split
+    · rfl
+    · have : (List.replicate q '"' ++ List.replicate q '"') = List.replicate (q + q) '"' := by
+        rw [List.replicate_append_replicate]
+      simp only [this, takeWhile_replicate, List.length_replicate]
+      have : (q + q) * 2 ≥ q + q := by omega
+      simp [this]
+  | cons c b =>
+    have hc : c ≠ '"' := by simpa using h
+    unfold parseCharList
+    have hlen : byteLen (List.replicate q '"' ++ c :: b ++ List.replicate q '"') ≠ 0 := by
+      cases q with
+      | zero => simpa using Nat.ne_of_gt (byteLen_cons_pos c _)
+      | succ q => simpa [List.replicate_succ] using Nat.ne_of_gt (byteLen_cons_pos '"' _)
+    have htw : (List.replicate q '"' ++ c :: b ++ List.replicate q '"').takeWhile (· == '"') = List.replicate q '"' := by
+      rw [List.append_assoc, List.cons_append]; exact takeWhile_replicate_append q '"' c _ hc
+    simp only [htw, List.length_replicate, List.length_append, List.length_cons]
+    have h1 : ¬ (q * 2 ≥ q + (b.length + 1) + q) := by omega
+    have h2 : q + (b.length + 1) + q - q * 2 = b.length + 1 := by omega
+    have h3 : ((List.replicate q '"' ++ c :: b ++ List.replicate q '"').drop q).take (b.length + 1) = c :: b := by
+      rw [List.append_assoc, List.drop_left' (by simp)]
+      rw [show b.length + 1 = (c :: b).length by simp, List.take_left']
+      rfl
+    simp only [beq_iff_eq, hlen, if_false, h1, h2, h3]
+    have := (charListLoop_unesc pf q (c :: b) [] []).1
+    simp only [loopResult, List.reverse_nil, appendOk_nil] at this
+    exact this
+end
+/-! ### escaping is undone by escape processing -/
+
+section
+variable (uni : List Char → Outcome Char)
+
+theorem unesc_escapeChar (q : Nat) (c : Char) (tail : List Char) :
+    unesc uni (decide (q ≤ 1)) .normal (escapeChar q c ++ tail)
+      = consOk c (unesc uni (decide (q ≤ 1)) .normal tail) := by
+  unfold escapeChar
+  by_cases h1 : c = '\\'
+  · subst h1; simp [unesc]
+  by_cases h2 : c = '"'
+  · subst h2; simp [unesc]
+  by_cases h3 : c = '\n' ∧ q ≤ 1
+  · obtain ⟨e, _⟩ := h3; subst e; simp [unesc, *]
+  by_cases h4 : c = '\t' ∧ q ≤ 1
+  · obtain ⟨e, _⟩ := h4; subst e; simp [unesc, *]
+  by_cases h5 : c = Char.ofNat 0
+  · subst h5; simp [unesc, *]
+  · have hws : ¬ ((c = '\n' ∨ c = '\t') ∧ decide (q ≤ 1) = true) := by
+      simp only [decide_eq_true_eq]
+      rintro ⟨e | e, hq⟩
+      · exact h3 ⟨e, hq⟩
+      · exact h4 ⟨e, hq⟩
+    simp only [h1, h2, h3, h4, h5, if_false, List.cons_append, List.nil_append, unesc, hws]
+
+theorem unesc_escapeChars (q : Nat) (cs tail : List Char) :
+    unesc uni (decide (q ≤ 1)) .normal (escapeChars q cs ++ tail)
+      = appendOk cs (unesc uni (decide (q ≤ 1)) .normal tail) := by
+  induction cs with
+  | nil => simp [escapeChars, appendOk_nil]
+  | cons c cs ih =>
+    have : escapeChars q (c :: cs) ++ tail = escapeChar q c ++ (escapeChars q cs ++ tail) := by
+      simp [escapeChars, List.flatMap_cons]
+    rw [this, unesc_escapeChar, ih]
+    cases unesc uni (decide (q ≤ 1)) Mode.normal tail <;> simp [appendOk, consOk]
+
+theorem unesc_escapeCharRaw (q : Nat) (c : Char) (tail : List Char) :
+    unesc uni (decide (q ≤ 1)) .normal (escapeCharRaw q c ++ tail)
+      = consOk c (unesc uni (decide (q ≤ 1)) .normal tail) := by
+  unfold escapeCharRaw
+  by_cases h2 : c = '"'
+  · subst h2; simp [unesc]
+  · simp only [h2, if_false]; exact unesc_escapeChar uni q c tail
+
+theorem unesc_escapeCharsRaw (q : Nat) (cs tail : List Char) :
+    unesc uni (decide (q ≤ 1)) .normal (escapeCharsRaw q cs ++ tail)
+      = appendOk cs (unesc uni (decide (q ≤ 1)) .normal tail) := by
+  induction cs with
+  | nil => simp [escapeCharsRaw, appendOk_nil]
+  | cons c cs ih =>
+    have : escapeCharsRaw q (c :: cs) ++ tail = escapeCharRaw q c ++ (escapeCharsRaw q cs ++ tail) := by
+      simp [escapeCharsRaw, List.flatMap_cons]
+    rw [this, unesc_escapeCharRaw, ih]
+    cases unesc uni (decide (q ≤ 1)) Mode.normal tail <;> simp [appendOk, consOk]
+
+/-- inside `\u`: characters other than the braces are collected up to the closing brace -/
+theorem unesc_uni_collect (skip : Bool) (ds hex tail : List Char) (h : ∀ x ∈ ds, x ≠ '}' ∧ x ≠ '{') :
+    unesc uni skip (.uni hex) (ds ++ '}' :: tail)
+      = Outcome.bind (uni (hex.reverse ++ ds)) fun ch => consOk ch (unesc uni skip .normal tail) := by
+  induction ds generalizing hex with
+  | nil => simp [unesc]
+  | cons d ds ih =>
+    have hd := h d (by simp)
+    have := ih (d :: hex) (fun x hx => h x (by simp [hx]))
+    simp [unesc, hd.1, hd.2, this]
+
+theorem unesc_escapeUnicode (skip : Bool) (c : Char) (tail : List Char) (hu : uni (spellNat 16 c.toNat) = .ok c) :
+    unesc uni skip .normal (escapeUnicode c ++ tail) = consOk c (unesc uni skip .normal tail) := by
+  have hmem : ∀ x ∈ spellNat 16 c.toNat, x ≠ '}' ∧ x ≠ '{' := by
+    intro x hx
+    constructor
+    · intro e; subst e; exact spellNat_not_mem 16 _ (by omega) (by omega) '}' (by decide) hx
+    · intro e; subst e; exact spellNat_not_mem 16 _ (by omega) (by omega) '{' (by decide) hx
+  have := unesc_uni_collect uni skip (spellNat 16 c.toNat) [] tail hmem
+  simp only [escapeUnicode, List.cons_append, List.append_assoc, List.nil_append]
+  simp only [unesc]
+  simp [this, hu, Outcome.bind]
+
+end
+/-! ### the `\\u{…}` decoder on canonical hex spellings; heads of escaped bodies -/
+
+theorem insertSepsFrom_nil (i : Nat) (ds : List Char) : insertSepsFrom [] i ds = ds := by
+  induction ds generalizing i with
+  | nil => rfl
+  | cons d ds ih => simp [insertSepsFrom, ih]
+
+theorem insertSeps_nil (ds : List Char) : insertSeps ds [] = ds := insertSepsFrom_nil 0 ds
+
+theorem charFromI32_toNat (c : Char) : charFromI32 (c.toNat : Int) = some c := by
+  unfold charFromI32
+  have hlt : c.toNat < 1114112 := by
+    have := c.valid
+    simp only [Char.toNat]
+    rcases this with h | ⟨_, h⟩ <;> simp only [UInt32.toNat] at * <;> omega
+  have hu : ((c.toNat : Int) % 4294967296).toNat = c.toNat := by omega
+  simp only [hu]
+  have hv : c.toNat.isValidChar := c.valid
+  simp only [hv, dite_true]
+  congr 1
+
+section
+variable {F : Type} (pf : List Char → Option F)
+
+theorem parseNumberInternal_spellNat (r n : Nat) (hr2 : 2 ≤ r) (hr : r ≤ 36) (hn : n ≤ 2147483647) :
+    parseNumberInternal pf (spellNat r n) r = .ok (.int n) := by
+  have h := parse_plain pf r n [] hr2 hr (by simp)
+  have h2 := readDigits_spell pf r n [] 0 hr2 hr
+  simp only [insertSeps_nil] at h
+  rw [h]
+  have : insertSepsFrom [] 0 (spellNat r n) = spellNat r n := insertSepsFrom_nil 0 _
+  rw [this] at h2
+  rw [h2]; simp [hn]
+
+theorem uniModel_spell (c : Char) : uniModel pf (spellNat 16 c.toNat) = .ok c := by
+  have hlt : c.toNat ≤ 2147483647 := by
+    have := c.valid
+    simp only [Char.toNat]
+    rcases this with h | ⟨_, h⟩ <;> simp only [UInt32.toNat] at * <;> omega
+  unfold uniModel
+  rw [parseNumberInternal_spellNat pf 16 _ (by omega) (by omega) hlt]
+  simp [Outcome.bind, charFromI32_toNat]
+
+theorem unesc_escapeCharU (q : Nat) (c : Char) (tail : List Char) :
+    unesc (uniModel pf) (decide (q ≤ 1)) .normal (escapeCharU q c ++ tail)
+      = consOk c (unesc (uniModel pf) (decide (q ≤ 1)) .normal tail) := by
+  unfold escapeCharU
+  by_cases h2 : c = '"'
+  · subst h2; simp only [if_true]; exact unesc_escapeUnicode _ _ _ _ (uniModel_spell pf '"')
+  · simp only [h2, if_false]; exact unesc_escapeChar _ q c tail
+
+theorem unesc_escapeCharsU (q : Nat) (cs tail : List Char) :
+    unesc (uniModel pf) (decide (q ≤ 1)) .normal (escapeCharsU q cs ++ tail)
+      = appendOk cs (unesc (uniModel pf) (decide (q ≤ 1)) .normal tail) := by
+  induction cs with
+  | nil => simp [escapeCharsU, appendOk_nil]
+  | cons c cs ih =>
+    have : escapeCharsU q (c :: cs) ++ tail = escapeCharU q c ++ (escapeCharsU q cs ++ tail) := by
+      simp [escapeCharsU, List.flatMap_cons]
+    rw [this, unesc_escapeCharU, ih]
+    cases unesc (uniModel pf) (decide (q ≤ 1)) Mode.normal tail <;> simp [appendOk, consOk]
+
+end
+
+/-- an escaped body never starts with a quote -/
+theorem escapeChar_head (q : Nat) (c : Char) : ∃ x rest, escapeChar q c = x :: rest ∧ x ≠ '"' := by
+  unfold escapeChar
+  split
+  · exact ⟨_, _, rfl, by decide⟩
+  split
+  · exact ⟨_, _, rfl, by decide⟩
+  rename_i h2
+  split
+  · exact ⟨_, _, rfl, by decide⟩
+  split
+  · exact ⟨_, _, rfl, by decide⟩
+  split
+  · exact ⟨_, _, rfl, by decide⟩
+  · exact ⟨c, [], rfl, h2⟩
+
+theorem escapeChars_head (q : Nat) (cs : List Char) : (escapeChars q cs).head? ≠ some '"' := by
+  cases cs with
+  | nil => simp [escapeChars]
+  | cons c cs =>
+    obtain ⟨x, rest, e, hx⟩ := escapeChar_head q c
+    simp [escapeChars, List.flatMap_cons, e, hx]
+
+theorem escapeCharsU_head (q : Nat) (cs : List Char) : (escapeCharsU q cs).head? ≠ some '"' := by
+  cases cs with
+  | nil => simp [escapeCharsU]
+  | cons c cs =>
+    by_cases h2 : c = '"'
+    · simp [escapeCharsU, List.flatMap_cons, escapeCharU, h2, escapeUnicode]
+    · obtain ⟨x, rest, e, hx⟩ := escapeChar_head q c
+      simp [escapeCharsU, List.flatMap_cons, escapeCharU, h2, e, hx]
+
+theorem escapeCharsRaw_head (q : Nat) (cs : List Char) (h : cs.head? ≠ some '"') :
+    (escapeCharsRaw q cs).head? ≠ some '"' := by
+  cases cs with
+  | nil => simp [escapeCharsRaw]
+  | cons c cs =>
+    have h2 : c ≠ '"' := by simpa using h
+    obtain ⟨x, rest, e, hx⟩ := escapeChar_head q c
+    simp [escapeCharsRaw, List.flatMap_cons, escapeCharRaw, h2, e, hx]
+
+/-! ### UTF-8: the model's `encode_utf8` (via `String.toUTF8`) is the standard's table -/
+
+theorem toList_loop_eq (bs : ByteArray) : ∀ (k i : Nat) (r : List UInt8), bs.size - i = k →
+    ByteArray.toList.loop bs i r = r.reverse ++ bs.data.toList.drop i := by
+  intro k
+  induction k with
+  | zero =>
+    intro i r h
+    rw [ByteArray.toList.loop]
+    have h1 : ¬ i < bs.size := by omega
+    rw [if_neg h1]
+    have h2 : bs.data.toList.length ≤ i := by
+      have : bs.data.toList.length = bs.size := Array.length_toList
+      omega
+    rw [List.drop_eq_nil_of_le h2, List.append_nil]
+  | succ k ih =>
+    intro i r h
+    rw [ByteArray.toList.loop]
+    have hi : i < bs.size := by omega
+    rw [if_pos hi, ih (i + 1) _ (by omega)]
+    have hlen : i < bs.data.toList.length := by
+      have : bs.data.toList.length = bs.size := Array.length_toList
+      omega
+    rw [List.drop_eq_getElem_cons hlen, List.reverse_cons, List.append_assoc]
+    congr 2
+    show [bs.get! i] ++ _ = _
+    have : bs.get! i = bs.data.toList[i] := by
+      simp only [ByteArray.get!, Array.getElem_toList]
+      have hi' : i < bs.data.size := hi
+      exact getElem!_pos bs.data i hi'
+    rw [this]; rfl
+
+theorem byteArray_toList (bs : ByteArray) : bs.toList = bs.data.toList := by
+  have := toList_loop_eq bs _ 0 [] rfl
+  rw [ByteArray.toList, this]; rfl
+
+theorem utf8BytesOf_eq (c : Char) : utf8BytesOf c = (String.utf8EncodeChar c).map UInt8.toNat := by
+  simp [utf8BytesOf, Garnish.Model.SipHash.utf8Bytes, String.toUTF8, String.ofList, List.utf8Encode,
+    byteArray_toList]
+
+/-- the code's `encode_utf8` is the UTF-8 encoding of the Unicode standard -/
+theorem utf8BytesOf_spec (c : Char) : utf8BytesOf c = utf8Encode c := by
+  rw [utf8BytesOf_eq]
+  have hlt : c.toNat < 1114112 := by
+    have := c.valid
+    simp only [Char.toNat]
+    rcases this with h | ⟨_, h⟩ <;> simp only [UInt32.toNat] at * <;> omega
+  have hv : c.val.toNat = c.toNat := rfl
+  simp only [String.utf8EncodeChar, utf8Encode, hv]
+  generalize c.toNat = n at *
+  by_cases h1 : n ≤ 127
+  · have : n < 128 := by omega
+    simp [h1, this, UInt8.toNat_ofNat']; omega
+  by_cases h2 : n ≤ 2047
+  · have a : ¬ n < 128 := by omega
+    have b : n < 2048 := by omega
+    simp [h1, h2, a, b, UInt8.toNat_ofNat']; omega
+  by_cases h3 : n ≤ 65535
+  · have a : ¬ n < 128 := by omega
+    have b : ¬ n < 2048 := by omega
+    have d : n < 65536 := by omega
+    simp [h1, h2, h3, a, b, d, UInt8.toNat_ofNat']; omega
+  · have a : ¬ n < 128 := by omega
+    have b : ¬ n < 2048 := by omega
+    have d : ¬ n < 65536 := by omega
+    simp [h1, h2, h3, a, b, d, UInt8.toNat_ofNat']; omega
+/-! ### `parse_byte_list`, quoted form -/
+
+theorem byteListLoop_unescBytes : ∀ (body : List Char) (acc : List Nat) (esc : Bool),
+    byteListLoop acc esc body = appendOk acc.reverse (unescBytes esc body) := by
+  intro body
+  induction body with
+  | nil => intro acc esc; cases esc <;> simp [byteListLoop, unescBytes, appendOk]
+  | cons c rest ih =>
+    intro acc esc
+    have key : ∀ b : Nat, byteListLoop (b :: acc) false rest = appendOk acc.reverse (consOk b (unescBytes false rest)) := by
+      intro b; rw [ih, appendOk_consOk, List.reverse_cons]
+    cases esc with
+    | true =>
+      by_cases hn : c = 'n'
+      · subst hn; simp [byteListLoop, unescBytes]; exact key _
+      by_cases ht : c = 't'
+      · subst ht; simp [byteListLoop, unescBytes]; exact key _
+      by_cases hr : c = 'r'
+      · subst hr; simp [byteListLoop, unescBytes]; exact key _
+      by_cases h0 : c = '0'
+      · subst h0; simp [byteListLoop, unescBytes]; exact key _
+      by_cases hb : c = '\\'
+      · subst hb; simp [byteListLoop, unescBytes]; exact key _
+      by_cases hq : c = '\''
+      · subst hq; simp [byteListLoop, unescBytes]; exact key _
+      · simp [byteListLoop, unescBytes, hn, ht, hr, h0, hb, hq, dataErr, appendOk]
+    | false =>
+      by_cases hb : c = '\\'
+      · subst hb; simp [byteListLoop, unescBytes]; exact ih _ _
+      · simp only [byteListLoop, unescBytes, hb, beq_iff_eq, if_false]
+        rw [ih, appendOk_appendOk, utf8BytesOf_spec]; simp
+
+section
+variable {F : Type} (pf : List Char → Option F)
+
+theorem parseByteList_quote1 (body : List Char) (h : body.head? ≠ some '\'') :
+    parseByteList pf (quoteByteList 1 body) = unescBytes false body := by
+  unfold quoteByteList
+  cases body with
+  | nil => simp [parseByteList, List.takeWhile, unescBytes]
+  | cons c b =>
+    have hc : c ≠ '\'' := by simpa using h
+    unfold parseByteList
+    have htw : (List.replicate 1 '\'' ++ c :: b ++ List.replicate 1 '\'').takeWhile (· == '\'') = List.replicate 1 '\'' := by
+      rw [List.append_assoc, List.cons_append]; exact takeWhile_replicate_append 1 '\'' c _ hc
+    simp only [htw, List.length_replicate, List.length_append, List.length_cons]
+    have h1 : ¬ (1 * 2 ≥ 1 + (b.length + 1) + 1) := by omega
+    have h2 : 1 + (b.length + 1) + 1 - 1 * 2 = b.length + 1 := by omega
+    have h3 : ((List.replicate 1 '\'' ++ c :: b ++ List.replicate 1 '\'').drop 1).take (b.length + 1) = c :: b := by
+      rw [List.append_assoc, List.drop_left' (by simp)]
+      rw [show b.length + 1 = (c :: b).length by simp, List.take_left']
+      rfl
+    have h4 : ¬ (1 ≥ 2) := by omega
+    simp only [h1, h2, h3, h4, if_false]
+    rw [byteListLoop_unescBytes]; simp [appendOk_nil]
+
+end
+
+theorem charOfNat_toNat (b : Nat) (h : b < 128) : (Char.ofNat b).toNat = b := by
+  have : b.isValidChar := Or.inl (by omega)
+  simp [Char.ofNat, this, Char.ofNatAux, Char.toNat]
+
+theorem unescBytes_escapeByte (b : Nat) (hb : b < 128) (tail : List Char) :
+    unescBytes false (escapeByte b ++ tail) = consOk b (unescBytes false tail) := by
+  unfold escapeByte
+  by_cases h1 : b = 92
+  · subst h1; simp [unescBytes]
+  by_cases h2 : b = 39
+  · subst h2; simp [unescBytes]
+  by_cases h3 : b = 10
+  · subst h3; simp [unescBytes]
+  by_cases h4 : b = 9
+  · subst h4; simp [unescBytes]
+  by_cases h5 : b = 13
+  · subst h5; simp [unescBytes]
+  by_cases h6 : b = 0
+  · subst h6; simp [unescBytes]
+  · have hne : Char.ofNat b ≠ '\\' := by
+      intro e
+      have := charOfNat_toNat b hb
+      rw [e] at this
+      have h92 : ('\\' : Char).toNat = 92 := by decide
+      omega
+    have henc : utf8Encode (Char.ofNat b) = [b] := by
+      simp [utf8Encode, charOfNat_toNat b hb, hb]
+    simp only [h1, h2, h3, h4, h5, h6, if_false, List.cons_append, List.nil_append, unescBytes, hne, henc]
+    cases unescBytes false tail <;> simp [appendOk, consOk]
+
+theorem unescBytes_escapeBytes (bs : List Nat) (hb : ∀ b ∈ bs, b < 128) (tail : List Char) :
+    unescBytes false (bs.flatMap escapeByte ++ tail) = appendOk bs (unescBytes false tail) := by
+  induction bs with
+  | nil => simp [appendOk_nil]
+  | cons b bs ih =>
+    have : (b :: bs).flatMap escapeByte ++ tail = escapeByte b ++ (bs.flatMap escapeByte ++ tail) := by
+      simp [List.flatMap_cons]
+    rw [this, unescBytes_escapeByte b (hb b (by simp)), ih (fun x hx => hb x (by simp [hx]))]
+    cases unescBytes false tail <;> simp [appendOk, consOk]
+
+theorem escapeBytes_head (bs : List Nat) (hb : ∀ b ∈ bs, b < 128) : (bs.flatMap escapeByte).head? ≠ some '\'' := by
+  cases bs with
+  | nil => simp
+  | cons b bs =>
+    have hb' := hb b (by simp)
+    have : ∃ x rest, escapeByte b = x :: rest ∧ x ≠ '\'' := by
+      unfold escapeByte
+      split
+      · exact ⟨_, _, rfl, by decide⟩
+      rename_i h1
+      split
+      · exact ⟨_, _, rfl, by decide⟩
+      rename_i h2
+      split
+      · exact ⟨_, _, rfl, by decide⟩
+      split
+      · exact ⟨_, _, rfl, by decide⟩
+      split
+      · exact ⟨_, _, rfl, by decide⟩
+      split
+      · exact ⟨_, _, rfl, by decide⟩
+      · refine ⟨_, _, rfl, ?_⟩
+        intro e
+        have := charOfNat_toNat b hb'
+        rw [e] at this
+        have h39 : ('\'' : Char).toNat = 39 := by decide
+        omega
+    obtain ⟨x, rest, e, hx⟩ := this
+    simp [List.flatMap_cons, e, hx]
+
+/-- characters that are neither a backslash: each contributes its UTF-8 bytes -/
+theorem unescBytes_plain (cs : List Char) (h : '\\' ∉ cs) :
+    unescBytes false cs = .ok (cs.flatMap utf8Encode) := by
+  induction cs with
+  | nil => simp [unescBytes]
+  | cons c cs ih =>
+    have hc : c ≠ '\\' := fun e => h (by simp [e])
+    have hr : '\\' ∉ cs := fun e => h (by simp [e])
+    simp [unescBytes, hc, ih hr, appendOk, List.flatMap_cons]
+
+/-! ### byte-offset slicing on ASCII text -/
+
+theorem isNumeric_digitChar : ∀ d, d < 10 → Garnish.Gen.CharRanges.isNumeric (digitChar d) = true := by
+  decide +kernel
+
+theorem isNumeric_space : Garnish.Gen.CharRanges.isNumeric ' ' = false := by decide +kernel
+
+theorem utf8Size_ascii (c : Char) (h : c.toNat < 128) : c.utf8Size = 1 := by
+  simp only [Char.utf8Size]
+  have : c.val ≤ 127 := by
+    have h' : c.val.toNat < 128 := h
+    exact UInt32.le_iff_toNat_le.mpr (by simp; omega)
+  simp [this]
+
+theorem byteLen_ascii_aux (cs : List Char) (h : ∀ c ∈ cs, c.utf8Size = 1) (a : Nat) :
+    cs.foldl (fun n c => n + c.utf8Size) a = a + cs.length := by
+  induction cs generalizing a with
+  | nil => simp
+  | cons c cs ih =>
+    simp only [List.foldl, List.length_cons]
+    rw [ih (fun x hx => h x (by simp [hx])), h c (by simp)]; omega
+
+theorem byteLen_ascii (cs : List Char) (h : ∀ c ∈ cs, c.utf8Size = 1) : byteLen cs = cs.length := by
+  unfold byteLen; rw [byteLen_ascii_aux cs h 0]; omega
+
+theorem charIndexOfByte_ascii (cs : List Char) (h : ∀ c ∈ cs, c.utf8Size = 1) :
+    ∀ (pos i off : Nat), pos ≤ off → off - pos ≤ cs.length → charIndexOfByte cs pos i off = some (i + (off - pos)) := by
+  induction cs with
+  | nil =>
+    intro pos i off h1 h2
+    have : pos = off := by simp at h2; omega
+    subst this
+    unfold charIndexOfByte; simp
+  | cons c cs ih =>
+    intro pos i off h1 h2
+    unfold charIndexOfByte
+    by_cases he : pos = off
+    · subst he; simp
+    · have hgt : ¬ pos > off := by omega
+      simp only [beq_iff_eq, he, if_false, hgt]
+      rw [h c (by simp), ih (fun x hx => h x (by simp [hx])) _ _ _ (by omega) (by simp at h2; omega)]
+      congr 1; omega
+
+theorem sliceBytes_ascii (input : List Char) (h : ∀ c ∈ input, c.utf8Size = 1) (a b : Nat) (hab : a ≤ b)
+    (hb : b ≤ input.length) : sliceBytes input a b = some ((input.drop a).take (b - a)) := by
+  unfold sliceBytes
+  have : ¬ a > b := by omega
+  simp only [this, if_false]
+  rw [charIndexOfByte_ascii input h 0 0 a (by omega) (by omega),
+    charIndexOfByte_ascii input h 0 0 b (by omega) (by omega)]
+  simp
+
+/-! ### `parse_byte_list_numbers` -/
+
+section
+variable {F : Type} (pf : List Char → Option F)
+
+/-- what an entry spelling must satisfy: non-empty, made of numeric characters and `_`, ASCII, denotes `b` -/
+structure ByteSpelling (spell : Nat → List Char) (b : Nat) : Prop where
+  ne : spell b ≠ []
+  chars : ∀ c ∈ spell b, (Garnish.Gen.CharRanges.isNumeric c = true ∨ c = '_') ∧ c.toNat < 128 ∧ c ≠ '\''
+  value : parseSimpleNumber pf (spell b) = .ok (.int b)
+
+theorem byteNumLoop_digits (ds : List Char) (h : ∀ c ∈ ds, Garnish.Gen.CharRanges.isNumeric c = true ∨ c = '_')
+    (cur : List Char) (acc : List Nat) (tail : List Char) :
+    byteNumLoop pf ⟨cur, acc⟩ (ds ++ tail) = byteNumLoop pf ⟨ds.reverse ++ cur, acc⟩ tail := by
+  induction ds generalizing cur with
+  | nil => simp
+  | cons d ds ih =>
+    have hd := h d (by simp)
+    have : (Garnish.Gen.CharRanges.isNumeric d || d == '_') = true := by
+      rcases hd with h | h <;> simp [h]
+    simp only [List.cons_append, byteNumLoop, byteNumStep, this, if_true, Outcome.bind]
+    rw [ih (fun x hx => h x (by simp [hx]))]; simp
+
+theorem byteNumLoop_space (cur : List Char) (acc : List Nat) (tail : List Char) (b : Nat) (hb : b ≤ 255)
+    (hne : cur ≠ []) (hv : parseSimpleNumber pf cur.reverse = .ok (.int b)) :
+    byteNumLoop pf ⟨cur, acc⟩ (' ' :: tail) = byteNumLoop pf ⟨[], b :: acc⟩ tail := by
+  have hlen : cur.length > 0 := List.length_pos_iff.mpr hne
+  have h1 : ¬ ((b : Int) < 0 ∨ (b : Int) > 255) := by omega
+  simp [byteNumLoop, byteNumStep, isNumeric_space, hlen, hv, Outcome.bind, h1]
+
+theorem byteNumLoop_entries (spell : Nat → List Char) (bs : List Nat) (hs : ∀ b ∈ bs, ByteSpelling pf spell b)
+    (hb : ∀ b ∈ bs, b ≤ 255) (hne : bs ≠ []) (acc : List Nat) :
+    byteNumLoop pf ⟨[], acc⟩ (joinSpaces (bs.map spell) ++ [' ']) = .ok ⟨[], bs.reverse ++ acc⟩ := by
+  induction bs generalizing acc with
+  | nil => exact absurd rfl hne
+  | cons b bs ih =>
+    have hsb := hs b (by simp)
+    have hbb := hb b (by simp)
+    have step : ∀ tail, byteNumLoop pf ⟨[], acc⟩ (spell b ++ ' ' :: tail) = byteNumLoop pf ⟨[], b :: acc⟩ tail := by
+      intro tail
+      rw [byteNumLoop_digits pf (spell b) (fun c hc => (hsb.chars c hc).1)]
+      rw [byteNumLoop_space pf _ acc tail b hbb (by simpa using hsb.ne) (by simpa using hsb.value)]
+    cases bs with
+    | nil =>
+      simp only [List.map, joinSpaces]
+      rw [step]; simp [byteNumLoop]
+    | cons b2 bs2 =>
+      simp only [List.map, joinSpaces, List.append_assoc, List.cons_append]
+      rw [step]
+      have := ih (fun x hx => hs x (by simp [hx])) (fun x hx => hb x (by simp [hx])) (by simp) (b :: acc)
+      simp only [List.map] at this
+      rw [this]; simp
+
+theorem parseByteListNumbers_entries (spell : Nat → List Char) (bs : List Nat)
+    (hs : ∀ b ∈ bs, ByteSpelling pf spell b) (hb : ∀ b ∈ bs, b ≤ 255) (hne : bs ≠ []) :
+    parseByteListNumbers pf (joinSpaces (bs.map spell)) = .ok bs := by
+  unfold parseByteListNumbers
+  rw [byteNumLoop_entries pf spell bs hs hb hne []]
+  simp [Outcome.bind]
+
+end
+/-! ### `parse_byte_list`, numeric form -/
+
+section
+variable {F : Type} (pf : List Char → Option F)
+
+theorem parseByteList_quote_nil (q : Nat) : parseByteList pf (quoteByteList q []) = .ok [] := by
+  unfold quoteByteList parseByteList
+  simp only [List.append_nil, List.replicate_append_replicate, takeWhile_replicate, List.length_replicate]
+  have : (q + q) * 2 ≥ q + q := by omega
+  simp [this]
+
+theorem parseByteList_numeric (q : Nat) (hq : 2 ≤ q) (body : List Char) (hne : body ≠ [])
+    (hascii : ∀ c ∈ body, c.toNat < 128) (hhead : body.head? ≠ some '\'') :
+    parseByteList pf (quoteByteList q body) = parseByteListNumbers pf body := by
+  unfold quoteByteList
+  cases body with
+  | nil => exact absurd rfl hne
+  | cons c b =>
+    have hc : c ≠ '\'' := by simpa using hhead
+    unfold parseByteList
+    have htw : (List.replicate q '\'' ++ c :: b ++ List.replicate q '\'').takeWhile (· == '\'') = List.replicate q '\'' := by
+      rw [List.append_assoc, List.cons_append]; exact takeWhile_replicate_append q '\'' c _ hc
+    simp only [htw, List.length_replicate, List.length_append, List.length_cons]
+    have h1 : ¬ (q * 2 ≥ q + (b.length + 1) + q) := by omega
+    have hall : ∀ x ∈ List.replicate q '\'' ++ c :: b ++ List.replicate q '\'', x.utf8Size = 1 := by
+      intro x hx
+      apply utf8Size_ascii
+      simp only [List.mem_append, List.mem_replicate] at hx
+      rcases hx with (⟨_, e⟩ | hx) | ⟨_, e⟩
+      · subst e; decide
+      · exact hascii x hx
+      · subst e; decide
+    have hlen : byteLen (List.replicate q '\'' ++ c :: b ++ List.replicate q '\'') = q + (b.length + 1) + q := by
+      rw [byteLen_ascii _ hall]; simp; omega
+    have hsl := sliceBytes_ascii (List.replicate q '\'' ++ c :: b ++ List.replicate q '\'') hall q (q + (b.length + 1))
+      (by omega) (by simp)
+    have h3 : ((List.replicate q '\'' ++ c :: b ++ List.replicate q '\'').drop q).take (q + (b.length + 1) - q) = c :: b := by
+      rw [List.append_assoc, List.drop_left' (by simp)]
+      rw [show q + (b.length + 1) - q = (c :: b).length by simp, List.take_left']
+      rfl
+    have h4 : q + (b.length + 1) + q - q = q + (b.length + 1) := by omega
+    simp only [h1, if_false, hq, if_true, hlen, h4, hsl, h3]
+
+theorem joinSpaces_mem (xs : List (List Char)) (c : Char) (h : c ∈ joinSpaces xs) : c = ' ' ∨ ∃ x ∈ xs, c ∈ x := by
+  induction xs with
+  | nil => simp [joinSpaces] at h
+  | cons x rest ih =>
+    cases rest with
+    | nil => exact Or.inr ⟨x, by simp, by simpa [joinSpaces] using h⟩
+    | cons y r =>
+      simp only [joinSpaces, List.mem_append, List.mem_cons] at h
+      rcases h with h | h | h
+      · exact Or.inr ⟨x, by simp, h⟩
+      · exact Or.inl h
+      · rcases ih h with h | ⟨z, hz, hc⟩
+        · exact Or.inl h
+        · exact Or.inr ⟨z, by simp [hz], hc⟩
+
+theorem joinSpaces_head (x : List Char) (rest : List (List Char)) (hx : x ≠ []) :
+    (joinSpaces (x :: rest)).head? = x.head? := by
+  cases x with
+  | nil => exact absurd rfl hx
+  | cons c cs => cases rest <;> simp [joinSpaces]
+
+theorem parseByteList_numericWith (spell : Nat → List Char) (q : Nat) (hq : 2 ≤ q) (bs : List Nat)
+    (hs : ∀ b ∈ bs, ByteSpelling pf spell b) (hb : ∀ b ∈ bs, b ≤ 255) :
+    parseByteList pf (spellBytesNumericWith spell q bs) = .ok bs := by
+  unfold spellBytesNumericWith
+  cases bs with
+  | nil => exact parseByteList_quote_nil pf q
+  | cons b rest =>
+    have hsb := hs b (by simp)
+    have hne : joinSpaces ((b :: rest).map spell) ≠ [] := by
+      intro e
+      have := joinSpaces_head (spell b) (rest.map spell) hsb.ne
+      simp only [List.map] at e
+      rw [e] at this
+      cases hsp : spell b with
+      | nil => exact hsb.ne hsp
+      | cons c cs => simp [hsp] at this
+    rw [parseByteList_numeric pf q hq _ hne]
+    · exact parseByteListNumbers_entries pf spell (b :: rest) hs hb (by simp)
+    · intro c hc
+      rcases joinSpaces_mem _ c hc with h | ⟨x, hx, hcx⟩
+      · subst h; decide
+      · obtain ⟨b', hb', e⟩ := List.mem_map.mp hx
+        subst e
+        exact ((hs b' hb').chars c hcx).2.1
+    · simp only [List.map]
+      rw [joinSpaces_head _ _ hsb.ne]
+      cases hsp : spell b with
+      | nil => exact absurd hsp hsb.ne
+      | cons c cs =>
+        have := (hsb.chars c (by simp [hsp])).2.2
+        simp [this]
+
+/-- the canonical decimal entry spelling -/
+theorem byteSpelling_decimal (b : Nat) (hb : b ≤ 255) : ByteSpelling pf (spellNat 10) b where
+  ne := spellNat_ne_nil 10 b
+  chars := by
+    intro c hc
+    exact spellNat_chars 10 b (by omega)
+      (fun c => (Garnish.Gen.CharRanges.isNumeric c = true ∨ c = '_') ∧ c.toNat < 128 ∧ c ≠ '\'')
+      (fun d hd => ⟨Or.inl (isNumeric_digitChar d hd), by rw [digitChar_toNat d (by omega)]; split <;> omega,
+        digitChar_ne d (by omega) '\'' (by decide)⟩) c hc
+  value := by
+    unfold parseSimpleNumber
+    exact parseNumberInternal_spellNat pf 10 b (by omega) (by omega) (by omega)
+
+end
+/-! ### decimal fractions; symbols -/
+
+theorem foldl_dstep_none (r : Nat) (cs : List Char) : cs.foldl (dstep r) none = none := by
+  induction cs with
+  | nil => rfl
+  | cons c cs ih => simpa [List.foldl, dstep] using ih
+
+theorem foldl_dstep_bad (r : Nat) (cs : List Char) (x : Char) (hx : x ∈ cs) (hbad : toDigit x r = none)
+    (a : Option Nat) : cs.foldl (dstep r) a = none := by
+  induction cs generalizing a with
+  | nil => simp at hx
+  | cons c cs ih =>
+    simp only [List.foldl]
+    rcases List.mem_cons.mp hx with e | h
+    · subst e
+      have : dstep r a x = none := by cases a <;> simp [dstep, hbad]
+      rw [this, foldl_dstep_none]
+    · exact ih h _
+
+theorem digitsValue_bad (r : Nat) (cs : List Char) (x : Char) (hx : x ∈ cs) (hbad : toDigit x r = none) :
+    digitsValue r cs = none := by
+  cases cs with
+  | nil => rfl
+  | cons c cs => rw [digitsValue_cons]; exact foldl_dstep_bad r _ x hx hbad _
+
+section
+variable {F : Type} (pf : List Char → Option F)
+
+/-- a decimal fraction is handed to `f64::from_str` unchanged except for the removed `_` -/
+theorem parse_fraction (d : Nat) (hd : d < 10) (rest : List Char) (hdot : '.' ∈ rest)
+    (hpre : d ≠ 0 ∨ '_' ∉ rest) :
+    parseSimpleNumber pf (digitChar d :: rest) =
+      match pf ((digitChar d :: rest).filter (· != '_')) with
+      | some f => .ok (.float f)
+      | none => .err .data := by
+  unfold parseSimpleNumber
+  rw [parseNumberInternal_eq]
+  have hsplit : radixSplit (digitChar d :: rest) 10 = .ok (10, digitChar d :: rest) := by
+    rcases hpre with h | h
+    · exact radixSplit_plain _ _ _ (digitChar_ne_zero d (by omega) (by omega))
+    · apply radixSplit_noSplit
+      apply splitAtUnderscore_none
+      intro hm
+      rcases List.mem_cons.mp hm with e | e
+      · exact digitChar_ne d (by omega) '_' (by decide) e.symm
+      · exact h e
+  rw [hsplit]
+  simp only [Outcome.bind, readDigits]
+  have hu : digitChar d ≠ '_' := digitChar_ne d (by omega) '_' (by decide)
+  have hf : (digitChar d :: rest).filter (· != '_') = digitChar d :: rest.filter (· != '_') := by
+    simp [List.filter_cons, hu]
+  rw [hf, i32FromStrRadix_head _ _ _ (digitChar_ne d (by omega) '+' (by decide)) (digitChar_ne d (by omega) '-' (by decide))]
+  have : digitsValue 10 (digitChar d :: rest.filter (· != '_')) = none := by
+    apply digitsValue_bad 10 _ '.' _ (by decide)
+    simp [List.mem_filter, hdot]
+  simp only [this]
+  cases pf (digitChar d :: List.filter (fun x => x != '_') rest) <;> rfl
+
+end
+
+theorem dropWhile_of_head_ne (c : Char) (s : List Char) (h : s.head? ≠ some c) : s.dropWhile (· == c) = s := by
+  cases s with
+  | nil => rfl
+  | cons x xs =>
+    have : x ≠ c := by simpa using h
+    have hb : (x == c) = false := by simpa using this
+    simp [List.dropWhile, hb]
+
+theorem trimMatches_id (c : Char) (s : List Char) (h1 : s.head? ≠ some c) (h2 : s.getLast? ≠ some c) :
+    trimMatches c s = s := by
+  unfold trimMatches
+  rw [dropWhile_of_head_ne c s h1, dropWhile_of_head_ne c s.reverse (by simpa using h2), List.reverse_reverse]
+
+/-! ### the lexer's `CharList` arm on a quote-free body -/
+open Garnish.Model.Lexer (Lexer armCharList)
+
+theorem escapeChar_no_quote (q : Nat) (c : Char) (hc : c ≠ '"') : '"' ∉ escapeChar q c := by
+  unfold escapeChar
+  split; · decide
+  split; · decide
+  split; · decide
+  split; · decide
+  · simp; exact fun e => hc e.symm
+
+/-- the lexable spelling contains no quote character at all -/
+theorem escapeCharsU_no_quote (q : Nat) (cs : List Char) : '"' ∉ escapeCharsU q cs := by
+  induction cs with
+  | nil => simp [escapeCharsU]
+  | cons c cs ih =>
+    simp only [escapeCharsU, List.flatMap_cons, List.mem_append, not_or]
+    refine ⟨?_, ih⟩
+    unfold escapeCharU
+    by_cases h : c = '"'
+    · subst h; simp only [if_true]; decide
+    · simp only [h, if_false]; exact escapeChar_no_quote q c h
+
+/-- the lexer's `CharList` arm fed character by character until it asks for a new token (`start_new`):
+the lexer at that point and the unconsumed input -/
+def feedCharList (self : Lexer) : List Char → Option (Lexer × List Char)
+  | [] => none
+  | c :: rest =>
+    let p := armCharList self c
+    if p.2 then some (p.1, rest) else feedCharList p.1 rest
+
+theorem armCharList_quote_more (self : Lexer) (h : ¬ self.startQuoteCount = self.endQuoteCount + 1) :
+    (armCharList self '"').2 = false ∧ (armCharList self '"').1.startQuoteCount = self.startQuoteCount ∧
+    (armCharList self '"').1.endQuoteCount = self.endQuoteCount + 1 ∧
+    (armCharList self '"').1.currentCharacters = self.currentCharacters ++ ['"'] := by
+  simp [armCharList, h, Garnish.Model.Lexer.push]
+
+theorem armCharList_quote_last (self : Lexer) (h : self.startQuoteCount = self.endQuoteCount + 1) :
+    (armCharList self '"').2 = true ∧
+    (armCharList self '"').1.currentCharacters = self.currentCharacters ++ ['"'] := by
+  simp [armCharList, h, Garnish.Model.Lexer.push]
+
+theorem armCharList_other (self : Lexer) (c : Char) (hc : c ≠ '"') :
+    (armCharList self c).2 = false ∧ (armCharList self c).1.startQuoteCount = self.startQuoteCount ∧
+    (armCharList self c).1.endQuoteCount = 0 ∧
+    (armCharList self c).1.currentCharacters = self.currentCharacters ++ [c] := by
+  simp [armCharList, hc, Garnish.Model.Lexer.push]
+
+theorem feedCharList_quotes (q : Nat) (rest : List Char) : ∀ (k : Nat) (self : Lexer),
+    self.startQuoteCount = q → self.endQuoteCount + k = q → 0 < k →
+    ∃ s, feedCharList self (List.replicate k '"' ++ rest) = some (s, rest) ∧
+      s.currentCharacters = self.currentCharacters ++ List.replicate k '"' := by
+  intro k
+  induction k with
+  | zero => intro self _ _ h; omega
+  | succ k ih =>
+    intro self hs he _
+    by_cases hk : k = 0
+    · subst hk
+      obtain ⟨h1, h2⟩ := armCharList_quote_last self (by omega)
+      exact ⟨(armCharList self '"').1, by simp [feedCharList, h1], by simpa using h2⟩
+    · obtain ⟨h1, h2, h3, h4⟩ := armCharList_quote_more self (by omega)
+      obtain ⟨s, g1, g2⟩ := ih (armCharList self '"').1 (by omega) (by omega) (by omega)
+      refine ⟨s, ?_, ?_⟩
+      · simp only [List.replicate_succ, List.cons_append, feedCharList, h1]
+        simpa using g1
+      · rw [g2, h4]; simp [List.replicate_succ]
+
+/-- A body without any quote character followed by the `q` closing quotes is consumed by the lexer's `CharList` state as
+ONE token text: the arm does not close early and closes exactly at the last quote. -/
+theorem feedCharList_body (q : Nat) (hq : 0 < q) (body rest : List Char) (hb : '"' ∉ body) (self : Lexer)
+    (hs : self.startQuoteCount = q) (he : body = [] → self.endQuoteCount = 0) :
+    ∃ s, feedCharList self (body ++ List.replicate q '"' ++ rest) = some (s, rest) ∧
+      s.currentCharacters = self.currentCharacters ++ body ++ List.replicate q '"' := by
+  induction body generalizing self with
+  | nil =>
+    obtain ⟨s, h1, h2⟩ := feedCharList_quotes q rest q self hs (by rw [he rfl]; omega) hq
+    exact ⟨s, by simpa using h1, by simpa using h2⟩
+  | cons c body ih =>
+    have hc : c ≠ '"' := fun e => hb (by simp [e])
+    obtain ⟨h1, h2, h3, h4⟩ := armCharList_other self c hc
+    obtain ⟨s, g1, g2⟩ := ih (fun e => hb (by simp [e])) (armCharList self c).1 (by omega) (fun _ => h3)
+    refine ⟨s, ?_, ?_⟩
+    · simp only [List.cons_append, feedCharList, h1]
+      simpa using g1
+    · rw [g2, h4]; simp
+
 end Garnish.Lemmas.Literals
